@@ -1,10 +1,35 @@
-(* C11 property theorems: statements only, each closed by `exact`, with Print Assumptions. *)
+(* C11 property theorems: statements only, each closed by `exact`, with Print Assumptions.
+   Everything is about the exact instance (NumQ) of coq/C11/Model.v + Base/Pivot.v at tolerance 0.
+   M, d are read with `get`/`vget` (0 outside the arrays) by model and specification alike; q must have
+   exactly n entries (the code tests `(q >= 0).all()` on it). *)
 From Coq Require Import List Bool Arith QArith.
-From QE Require Import Base.Num Base.Pivot C11.Model C11.Findings.
+From QE Require Import Base.Num Base.Pivot Base.PivotProofs C11.Model C11.Findings C11.Proofs.
 Import ListNotations.
 Open Scope Q_scope.
 
-(* pinned (pre-422719e) initial ratio loop: success with a negative z -- refutes `success => solution` *)
+(* the repaired initial loop returns the LAST index attaining min_i q_i/d_i *)
+Theorem C11_init_row_is_argmin : forall n q d,
+  (0 < n)%nat ->
+  let r := init_row n q d 0 in
+  (r < n)%nat /\
+  (forall i, (i < n)%nat -> vget q r / vget d r <= vget q i / vget d i) /\
+  (forall i, (r < i < n)%nat -> vget q r / vget d r < vget q i / vget d i).
+Proof. exact init_row_is_argmin. Qed.
+Print Assumptions C11_init_row_is_argmin.
+
+(* success => z >= 0, w = Mz + q >= 0, z_i w_i = 0 for every i: every n, M, q, covering vector d > 0, max_iter *)
+Theorem C11_lemke_success_solution : forall n M q d,
+  (forall i, (i < n)%nat -> 0 < vget d i) -> length q = n ->
+  forall max_iter z status ni,
+    lcp_lemke n M q d max_iter 0 0 = (z, true, status, ni) ->
+    (forall j, (j < n)%nat -> 0 <= vget z j) /\
+    (forall i, (i < n)%nat -> 0 <= sumQ n (fun j => get M i j * vget z j) + vget q i) /\
+    (forall i, (i < n)%nat -> vget z i * (sumQ n (fun j => get M i j * vget z j) + vget q i) == 0).
+Proof. exact lemke_success_solution. Qed.
+Print Assumptions C11_lemke_success_solution.
+
+(* the loop before commit 422719e (`ratio = ratio_min`): success with a negative z -- the same statement
+   is false for the old code (finding D1, repaired in /repo) *)
 Theorem C11_lemke_success_refuted :
   exists n M q d max_iter,
     (forall i, (i < n)%nat -> 0 < vget d i) /\
@@ -12,3 +37,27 @@ Theorem C11_lemke_success_refuted :
     success = true /\ status = 0%nat /\ z = [17 # 11; 12 # 11; -3 # 11] /\ vget z 2 < 0.
 Proof. exact lemke_success_refuted. Qed.
 Print Assumptions C11_lemke_success_refuted.
+
+(* not proved (Cottle-Pang-Stone theory of secondary rays); decided per case by the exact oracle *)
+Definition C11_lemke_classes_full : Prop :=
+  forall n M q d max_iter z success status ni,
+    (forall i, (i < n)%nat -> 0 < vget d i) -> length q = n ->
+    lcp_lemke n M q d max_iter 0 0 = (z, success, status, ni) -> status = 2%nat ->
+    (* M positive semidefinite: x'Mx >= 0 for all x *)
+    (forall x : list Q, 0 <= sumQ n (fun i => vget x i * sumQ n (fun j => get M i j * vget x j))) ->
+    forall z', ~ lcp_solution n M q z'.
+
+(* hypotheses satisfiable by a non-trivial object: the D1 witness, on which the repaired model succeeds
+   after 3 pivots with z = (19/13, 12/13, 0) *)
+Example ex_repaired_on_witness :
+  lcp_lemke 3 D1_M D1_q D1_d 1000 0 0 = ([19 # 13; 12 # 13; 0], true, 0%nat, 3%nat) /\
+  init_row 3 D1_q D1_d 0 = 1%nat /\ init_row_old 3 D1_q D1_d 0 = 2%nat.
+Proof. vm_compute. repeat split; reflexivity. Qed.
+Example ex_solution_instance : lcp_solution 3 D1_M D1_q [19 # 13; 12 # 13; 0].
+Proof.
+  apply (lemke_success_solution 3 D1_M D1_q D1_d) with (max_iter := 1000%nat) (status := 0%nat) (ni := 3%nat).
+  - intros i Hi. destruct i as [|[|[|i]]]; vm_compute; try reflexivity.
+    exfalso. do 3 apply Nat.succ_lt_mono in Hi. inversion Hi.
+  - reflexivity.
+  - vm_compute. reflexivity.
+Qed.
